@@ -759,6 +759,47 @@ claim(
     "DESIGN.md §5.3 C26",
 )
 
+claim(
+    "C06",
+    "C06 does NOT hold in general on this tree (known finding): an acyclic program in which a task waits on a task set "
+    "whose members another task scheduled can get stuck, by two mechanisms, both exhibited on the real pool by replayable "
+    "schedules and both proved as reachable stuck states of the Lean model: the non-suspending helping wait buries the "
+    "awaited task under a task it took from the queue (C06_buried_counterexample; holds even if every actor polls every "
+    "tier), and wait()/tryWait() never poll the steal rings that placed (kHeavy / future) scheduling fills "
+    "(C06_steal_ring_counterexample). What is proved is the fork-join fragment, over a Lean model of helping-wait execution "
+    "(Model/Nested.lean: tasks with finite scripts of schedule / wait actions, task-set waits that run other queued tasks on "
+    "the waiter's stack, future waits that run only the awaited functor or block, threads as stacks of running tasks, tiers "
+    "central queue / per-thread rings / steal rings with a parametric may-poll relation, inline execution, the two-step "
+    "claim-then-push protocol of placed scheduling): for every program in which each wait is on a set or future whose "
+    "members the waiting task scheduled itself and each set scheduled into is waited on before its owner ends, for every "
+    "number of workers (including 0) and external threads, and every interleaving, if each tier is polled by helping "
+    "waiters or is filled only after a worker that polls it was claimed while its stack was empty (true of the unchanged "
+    "code: C06_forkjoin_current_code), then no reachable state has an unfinished task while no thread can take a step other "
+    "than spinning (C06_forkjoin_partial), and every execution has at most an explicitly bounded number of steps and can "
+    "only end with every scheduled task finished (C06_forkjoin_terminates_partial). No fairness assumption enters the "
+    "not-stuck theorem; that a thread with an enabled step is eventually scheduled and that a claimed worker really wakes "
+    "up (C07/C09) is outside the model. Tie: generated nested-wait programs (TaskSet, light/heavy ConcurrentTaskSet, single / "
+    "force-queued / bulk scheduling, inline paths, tryWait loops, waiting parallel_for, futures; pools of 0..4 threads) run "
+    "on the real code under the deterministic scheduler; every run's scheduling history — schedule brackets, push / take / "
+    "inline hooks, claims observed as atomic operations on the worker sleep mask, body begin / end, wait brackets — must be "
+    "a history of the model under the may-poll relation of the unchanged code: a pop from a tier the model says that role "
+    "does not poll, a steal-ring push without a claimed idle worker, a task started from a tier it was not pushed to, a wait "
+    "returning with an unfinished member are correspondence failures; stuck runs are replayed too and the model confirms "
+    "its state is stuck (and names the mechanism). Oracle: stuck detection; a stuck fork-join program is a violation, a "
+    "stuck program with foreign waits reproduces the known finding.",
+    "Trusted: Lean kernel; the hand-written model (checked against the code only on the explored runs); dsched as the "
+    "source of interleavings; 'outstanding count = number of scheduled unfinished members' (C02). The model over-approximates: "
+    "any tier without claim protocol may be chosen by any schedule call, inline execution is always allowed, tiers are "
+    "unordered, a waiter may help at any time while it waits. It cannot exhibit: wake-up latency and lost wake-ups (a "
+    "claimed or idle worker is simply able to run; the harness shortens the idle-sleep backstop so that these cannot look "
+    "like a stuck run), cancellation, exceptions, resize, pool destruction with queued work, >64 steal rings (cross-ring "
+    "stealing bitmask), memory-order effects. Waits on sets scheduled by other tasks are not covered by any theorem (they "
+    "are the known finding).",
+    "Lean 4 proof (inductive invariant over all interleavings with start-stamp ghost state, well-founded progress argument, "
+    "termination measure; concrete reachable counterexamples) + trace validation under a deterministic scheduler",
+    "DESIGN.md §5.1 C06",
+)
+
 ALL = ["C%02d" % i for i in range(1, 49)]
 for _p in ALL:
     if _p not in CLAIMED:
